@@ -442,8 +442,16 @@ func TestC16(t *testing.T) {
 				}
 			}
 		}
-		// aliasing: a parsed quote shares no memory with its input
-		rawc := append([]byte{}, raw...)
+		// aliasing: a parsed quote shares no memory with its input — whatever the capacity of the input buffer (spare capacity, or
+		// exactly as large as the quote) and whether or not bytes follow the signed data
+		for ai, rawIn := range [][]byte{raw, raw[:len(raw)-len(w.Quote.ExtraBytes)]} {
+		for _, exact := range []bool{false, true} {
+		rawc := append(make([]byte, 0, len(rawIn)+37), rawIn...)
+		if exact {
+			rawc = make([]byte, len(rawIn))
+			copy(rawc, rawIn)
+		}
+		raw := rawIn
 		any, err := abi.QuoteToProto(rawc)
 		if err != nil {
 			t.Fatal(err)
@@ -471,7 +479,9 @@ func TestC16(t *testing.T) {
 		} else if !proto.Equal(q, ref) {
 			obs, fail = "changed", "overwriting the input buffer after parsing changed the parsed quote"
 		}
-		r.Emit(fmt.Sprintf("# C16.alias world=%d len=%d", wi, len(raw)), obs, fail, fmt.Sprintf("alias|%d", wi), true, "alias", "obs:"+strings.SplitN(obs, ":", 2)[0])
+		r.Emit(fmt.Sprintf("# C16.alias world=%d len=%d trailing=%v exact-capacity=%v", wi, len(raw), ai == 0, exact), obs, fail, fmt.Sprintf("alias|%d|%d|%v", wi, ai, exact), true, "alias", "obs:"+strings.SplitN(obs, ":", 2)[0])
+		}
+		}
 	}
 	// concurrency: the same binary re-executed as a worker under the race detector
 	workers, iters := 8, 150
